@@ -60,7 +60,10 @@ pub uninterp spec fn sym_of(s: &Symbol) -> (Seq<char>, Seq<char>);
 #[verifier::external_body] pub fn symbol_call(s: &Symbol, args: &Vec<Primitive>) -> (r: ReturnValue)
     ensures r == ffi_result(sym_of(s).0, sym_of(s).1, args@) { unimplemented!() }
 
-pub struct Program { pub module_cache: ModuleCache }
+pub struct Program { pub module_cache: ModuleCache, pub ran: Ghost<Seq<JumpRequest>> }
+// a change may build a different request for the callee: vocabulary
+#[verifier::external_body] pub fn fresh_stack() -> (r: StackRef) { unimplemented!() }              // Rc::new(RefCell::new(Stack::new())): NOT the caller's stack
+impl JumpRequest { #[verifier::external_body] pub fn clone(&self) -> (r: JumpRequest) ensures r == *self { unimplemented!() } }
 """
 
 
@@ -72,6 +75,7 @@ def build(repo):
     drop_log = [Rule("R3", "log :: info ! $a ;", "", why="logging dropped"), Rule("R3", "log :: trace ! $a ;", "", why="logging dropped"), Rule("R3", "log :: debug ! $a ;", "", why="logging dropped")]
     rules = drop_log + [
         Rule("R3", "bail ! $a", "return Err ( VErr )", why="bail! -> return Err"),
+        Rule("R9", "Rc :: new ( RefCell :: new ( Stack :: new ( ) ) )", "fresh_stack ( )", why="a new, empty call stack (not the requester's)"),
         Rule("R10", "let view = self . module_cache . borrow_mut ( ) ;", "", count=1, why="RefCell borrow of the cache dropped (cache is a &mut field)"),
         Rule("R6", "view . get ( path )", "cache_get ( & self . module_cache , path )", count=1, why="HashMap::get as finite-map lookup"),
         Rule("R10", "let module = cached . borrow ( ) ;", "let module = cached ;", count=1, why="RefCell<ExportMap> borrow -> the handle"),
@@ -116,6 +120,8 @@ impl Program {{
         requires request.destination is Module ==> !cache_view(&old(self).module_cache).contains_key(key_of(request)),
         ensures forall|k: Seq<char>| cache_view(&old(self).module_cache).contains_key(k) ==> #[trigger] cache_view(&final(self).module_cache).contains_key(k)
                     && mod_id(&cache_view(&final(self).module_cache)[k]) == mod_id(&cache_view(&old(self).module_cache)[k]),
+                // ghost log: which request was run (destination, arguments, captured variables AND call stack)
+                final(self).ran@ == old(self).ran@.push(*request),
     {{ unimplemented!() }}
 
     //@ OBL C11.module.once
@@ -131,6 +137,9 @@ impl Program {{
                 r->Ok_0 is Value && r->Ok_0->Value_0 is Module
                 && cache_view(&final(self).module_cache).contains_key(key_of(request))
                 && mod_id(&cache_view(&final(self).module_cache)[key_of(request)]) == mod_id(&r->Ok_0->Value_0->Module_0)),
+            // C17 (trace) / C11: whatever is run for a module or a function request is run as THE request -- on the requester's call stack (a failure
+            // inside an import is reported with the importer's frames beneath it), with its arguments and captured variables
+            (!(request.destination is Library) && final(self).ran@.len() > old(self).ran@.len()) ==> final(self).ran@ == old(self).ran@.push(*request),
             // a library destination is the foreign call with exactly the request's names and arguments; its error is propagated
             request.destination is Library ==> (
                 (r is Ok ==> r->Ok_0 == ffi_result(text_of(&request.destination->lib_name), text_of(&request.destination->func_name), request.arguments@))
@@ -146,13 +155,13 @@ fn main() {{}}
 """
     obls = [
         Obl("C19.library.call", ["C19"], fn="process_library_jump_request", desc="process_library_jump_request: opens the named library, resolves the named symbol, calls it with the argument slice and returns its value; missing library/symbol -> Err"),
-        Obl("C11.module.once", ["C11", "C19"], fn="Program::process_jump_request",
+        Obl("C11.module.once", ["C11", "C19", "C17"], fn="Program::process_jump_request",
             desc="process_jump_request: a cached module is never run again (callee precondition) and the cached instance itself is returned; on a miss the result is cached under exactly the request's key; library requests are routed with their own names and arguments"),
     ]
     return gen, obls, log
 
 
-UNITS = [VUnit("c11_module", ["C11", "C19"], "module cache once-only / same instance; library call routing", build)]
+UNITS = [VUnit("c11_module", ["C11", "C19", "C17"], "module cache once-only / same instance; library call routing", build)]
 UNITS[0].assumes = ["RefCell<HashMap> fields as &mut finite maps (R10): single-threaded, no re-entrant borrow is checked",
                     "process_standard_jump_request (runs the callee, may import further modules) is an abstract callee that only adds cache entries",
                     "libloading::Library::new / get and the call through the symbol are assumed contracts; the dylib ABI is not modelled",
